@@ -6,6 +6,7 @@ mod content;
 mod model;
 mod props;
 mod qspec;
+mod selftest;
 mod sim;
 mod workload;
 mod world;
@@ -61,7 +62,7 @@ fn cmd_run(args: &[String]) -> i32 {
     // loop inside one poll cannot be seen by the step budget) is reported as a
     // hang and the worker exits with status 3; the driver restarts it after
     // the offending run.
-    let run_timeout = argu(args, "--run-timeout", 120);
+    let run_timeout = argu(args, "--run-timeout", 20);
     let cur_run = std::sync::Arc::new(std::sync::atomic::AtomicU64::new(u64::MAX));
     let cur_start = std::sync::Arc::new(std::sync::atomic::AtomicU64::new(0));
     {
@@ -199,8 +200,12 @@ fn cmd_replay(args: &[String]) -> i32 {
     let seed = v["seed"].as_u64().unwrap_or(1);
     let run = v["run"].as_u64().unwrap_or(0);
     let ov = load_override(&v["case"]);
-    let trace = args.iter().any(|a| a == "--trace");
-    let _ = trace;
+    let limit = argu(args, "--run-timeout", 20);
+    std::thread::spawn(move || {
+        std::thread::sleep(std::time::Duration::from_secs(limit));
+        println!("{}", json!({"hang": {"wall_limit_s": limit}}));
+        std::process::exit(3);
+    });
     let r = run_case(&p, seed, run, &ov, true);
     println!("{}", json!({"replay": r.to_json(false)}));
     0
@@ -218,6 +223,19 @@ fn main() {
         "replay" => cmd_replay(&args[1..]),
         "show" => cmd_show(&args[1..]),
         "info" => cmd_info(&args[1..]),
+        "selftest-builder" => {
+            let a = &args[1..];
+            match selftest::builder_triangle(argu(a, "--seed", 1), argu(a, "--count", 500)) {
+                Ok(n) => {
+                    println!("builder triangle ok: {n} images");
+                    0
+                }
+                Err(e) => {
+                    println!("builder triangle FAILED: {e}");
+                    2
+                }
+            }
+        }
         _ => {
             eprintln!("unknown command");
             2
